@@ -334,11 +334,13 @@ func c19CheckTypes(c *Ctx, decls *goDecls, in any, d dumpNode, path string, fail
 			}
 			key := strings.Split(tag, ",")[0]
 			if key == "-" || key == "" {
-				key = ""
-				for k := range obj {
-					if strings.EqualFold(k, name) {
-						key = k
-					}
+				// fields decoded by generated code: their response key is the tag of the same field in the
+				// struct's own __premarshal struct; never guess (a mutated input may hold a key "" or a
+				// case variant of the Go name)
+				owner, _ := d["name"].(string)
+				key = decls.premarshalGo[owner][name]
+				if key == "" {
+					continue
 				}
 			}
 			if v, ok := obj[key]; ok {
